@@ -543,7 +543,9 @@ def make_serial_world(driver, kinds, nsubs, with_map, own=None):
         base_channels = w.channels
 
         def channels():
-            # foreign traffic only once the permanent subscriber exists
+            # foreign traffic only once the permanent subscriber exists (created as soon as the driver is connected)
+            if w.driver.is_connected and 0 not in w.queues and 0 not in w.qwin:
+                _qsub(w, 0)
             out = base_channels()
             return [c for c in out if c[0] != "gw:1" or 0 in w.queues]
         w.channels = channels
@@ -583,6 +585,8 @@ def judge_serial(res, cfg, w, obs):
     case = dict(cfg, t="serial")
     maptype = 3 if cfg.get("with_map") else "nomap"
     fitems = list(w.effective)
+    if w.gateway.observe or len([i for i in fitems if i in [tuple(x) for x in w.items]]) < len(w.items):
+        raise RuntimeError(f"HARNESS: history {cfg['kinds']} was not delivered completely ({len(fitems)} of {len(w.items)} items; trace {w.trace[-12:]})")
     exp_all, _ = ref_buswatch(fitems, maptype, pairing=False)
     exp_all = norm(exp_all[0])
     # index of the forward frames among the delivered items
